@@ -16,11 +16,98 @@ EXPLANATION = (
     "overwrites), upper bounds on size and dim before `size * (dim + 1)`, list-length comparisons before the unwraps; and set_v(i, d, m / r) is "
     "dominated by m % r == 0 (degrees are multiples of orbit lengths). Panic sites that do not depend on parsed numbers (completeness assertion "
     "after the fill loop, indexing by loop counters) rest on loop postconditions and struct invariants and are listed as invariant-justified. "
-    "NOT decided: the print/parse round-trip identities (value-level agreement of writer and reader loops); termination of the nom grammar.")
+    "Writer/reader agreement (T4): Display and FromStr walk the same index and chamber ranges (ops 0..=dim x 1..=size, degrees 0..dim), the "
+    "printer emits an image exactly when it is undefined or >= its chamber, the parser consumes one exactly for still-unassigned entries, degrees "
+    "are written as m(i, i+1, d) per 2-orbit representative and read back as v = m / r(i, i+1, d), and the dimension the printer omits (2) is the "
+    "grammar's default - necessary conditions of the round trip. "
+    "NOT decided: the round-trip identities themselves (value-level agreement of the two fill disciplines); termination of the nom grammar.")
 TRUSTED = ["rustc MIR lowering (dev profile: overflow/bounds asserts present)", "A3 the nom 7 combinators used by parse_dsym never panic",
            "A2 std may-panic table (Index, unwrap/expect, slice ops)", "A4/A6 struct invariants for sites not fed by parsed numbers",
            "weak criterion for overflow/indexing: an upper bound on the parsed number dominates (tightness not proved)"]
 ASSUMPTIONS = ["allocation failure is not a panic in scope (vec![0; size*(dim+1)] is bounded by the input length after the size guard)"]
+
+
+def writer_reader(ctx, g, rd):
+    """T4: the printer and the parser walk the same index and chamber ranges and agree on the dimension default (necessary for the
+    round trip; the value-level agreement of the two fill disciplines is NOT decided)"""
+    ctx.clauses.append("printer and parser agree on ranges and on the dimension default (T4 writer/reader agreement)")
+    wr = ctx.body("dsets::DSet::fmt")
+    ctx.scan([wr])
+    me = ("param", 1, wr.debug.get(1, ""))
+    def R(lo, hi, incl):
+        return (("int", lo), hi, incl)
+    dim_w, size_w = ("call", "dsets::DSet::dim", (me,)), ("call", "dsets::DSet::size", (me,))
+    w_ranges = [range_of(wr, ("local", it, ""), g) for h, e, it in loops_in(wr) if it is not None]
+    # writer: op(i, d) for i in 0..=dim, d in 1..=size ; m(i, i+1, d) for i in 0..dim over orbit_reps_2d(i, i+1)
+    okw_ops = False
+    for bi, t in wr.calls(exact="dsets::DSet::op"):
+        a = [norm(wr.origin(x), g) for x in t["args"]]
+        ri, rd_ = loop_range_of_payload(wr, a[1], g), loop_range_of_payload(wr, a[2], g)
+        okw_ops = ri == R(0, dim_w, True) and rd_ == R(1, size_w, True)
+    okw_ms = False
+    for bi, t in wr.calls(exact="dsets::DSet::m"):
+        a = [norm(wr.origin(x), g) for x in t["args"]]
+        ri = loop_range_of_payload(wr, a[1], g)
+        src = iter_source(wr, a[3], g)
+        nxt = ("field", ("binop", "AddWithOverflow", a[1], ("int", 1)), "0")
+        okw_ms = ri == R(0, dim_w, False) and a[2] == nxt and src == ("call", "dsets::DSet::orbit_reps_2d", (me, a[1], nxt))
+    ctx.ob("T4-writer-ranges", wr.name, "ops: 0..=dim x 1..=size; degrees: 0..dim over orbit_reps_2d(i, i+1)", "ok" if okw_ops and okw_ms else "violation",
+           "the printer emits operations for all indices and chambers and one degree m(i, i+1, d) per 2-orbit representative" if okw_ops and okw_ms else
+           "the printer's loops are not ops over 0..=dim() x 1..=size() and degrees m(i, i+1, d) over 0..dim() x orbit_reps_2d(i, i+1) (ops ok: %s, degrees ok: %s)" % (okw_ops, okw_ms))
+    # emission condition e == 0 || e >= d
+    oke = False
+    for bi, t in wr.calls("fmt::Formatter::<'a>::write_fmt"):
+        for dbb, atoms in [(bi, [atom_norm(a, g) for a in wr.facts_at(bi)])]:
+            pass
+    for h, e, it in loops_in(wr):
+        pass
+    for bi, blk in wr.live_blocks():
+        t = blk["term"]
+        if t["k"] == "switch":
+            d = norm(wr.origin(t["discr"]), g)
+            if d[0] == "binop" and d[1] == "Ge" and contains(d[2], lambda x: isinstance(x, tuple) and x and x[0] == "call" and x[1].endswith("unwrap_or")) and loop_range_of_payload(wr, d[3], g) == R(1, size_w, True):
+                oke = True
+    ctx.ob("T3-writer-emits-upper-images", wr.name, "e == 0 || e >= d", "ok" if oke else "violation",
+           "an image is printed when it is undefined or not smaller than its chamber (each pair once, at its smaller end)" if oke else
+           "the printer's emission condition is not `e == 0 || e >= d` on op(i, d).unwrap_or(0) and the chamber counter: pairs are printed twice or not at all, the parser's first-unassigned discipline no longer matches")
+    # reader ranges
+    spec_dim = None
+    okr_ops = okr_ms = False
+    for bi, t in rd.calls(exact="dsets::PartialDSet::set"):
+        a = [norm(rd.origin(x), g) for x in t["args"]]
+        ri, rdd = loop_range_of_payload(rd, a[1], g), loop_range_of_payload(rd, a[2], g)
+        if ri and rdd:
+            okr_ops = ri[0] == ("int", 0) and ri[2] and ri[1][0] == "field" and ri[1][2] == "dim" and rdd[0] == ("int", 1) and rdd[2] and rdd[1][0] == "field" and rdd[1][2] == "size"
+            # consumed only when still unassigned
+            fa = [atom_norm(x, g) for x in rd.facts_at(bi, deep=True)]
+            okr_ops = okr_ops and any(implies(h, ("rel", "Eq", ("call", "dsets::PartialDSet::op_unchecked", (a[0], a[1], a[2])), ("int", 0))) for h in fa)
+    for bi, t in rd.calls(exact="dsyms::PartialDSym::set_v"):
+        a = [norm(rd.origin(x), g) for x in t["args"]]
+        ri, rdd = loop_range_of_payload(rd, a[1], g), loop_range_of_payload(rd, a[2], g)
+        if ri and rdd:
+            okr_ms = ri[0] == ("int", 0) and not ri[2] and ri[1][0] == "field" and ri[1][2] == "dim" and rdd[0] == ("int", 1) and rdd[2] and rdd[1][0] == "field" and rdd[1][2] == "size"
+            v = a[3]
+            okr_ms = okr_ms and v[0] == "binop" and v[1] == "Div" and contains(v[3], lambda x: isinstance(x, tuple) and x and x[0] == "call" and x[1] == "dsets::DSet::r" and
+                                                                                  x[2][1] == a[1] and x[2][2] == ("field", ("binop", "AddWithOverflow", a[1], ("int", 1)), "0") and x[2][3] == a[2])
+    ctx.ob("T4-reader-ranges", rd.name, "ops: 0..=dim x 1..=size (first unassigned); degrees: 0..dim x 1..=size, v = m / r(i, i+1, d)", "ok" if okr_ops and okr_ms else "violation",
+           "the parser consumes images for unassigned (i, d) over 0..=dim x 1..=size and degrees over 0..dim x 1..=size with v = m / r(i, i+1, d)" if okr_ops and okr_ms else
+           "the parser's fill loops do not range like the printer's (ops ok: %s, degrees ok: %s): texts produced by Display are mis-read" % (okr_ops, okr_ms))
+    # dimension default: printer omits dim exactly for 2, grammar defaults to 2
+    wconst = None
+    for bi, blk in wr.live_blocks():
+        t = blk["term"]
+        if t["k"] == "switch":
+            d = norm(wr.origin(t["discr"]), g)
+            if d[0] == "binop" and d[1] in ("Eq", "Ne") and d[2] == dim_w and d[3][0] == "int":
+                wconst = d[3][1]
+    rconst = None
+    for c in ctx.facts.closures.get("parse_dsym::extents", []):
+        r = norm(ctx.facts.bodies[c].local_origin(0), g)
+        if r[0] == "agg" and len(r[2]) == 2 and r[2][1][0] == "int":
+            rconst = r[2][1][1]
+    ctx.ob("T4-dimension-default", "dsets::DSet::fmt ~ parse_dsym::extents", "omitted dimension", "ok" if wconst is not None and wconst == rconst else "violation",
+           "the printer omits the dimension exactly when it is %s and the grammar defaults to %s" % (wconst, rconst) if wconst is not None and wconst == rconst else
+           "printer omits the dimension for dim == %s but the grammar's default is %s: printed symbols of that dimension parse with another dimension" % (wconst, rconst))
 
 
 def run(ctx):
@@ -77,6 +164,7 @@ def run(ctx):
     ctx.floor("panic sites depending on parsed numbers", n, 10)
     ctx.notes.append("T5 stats: %s; functions reachable from from_str: %d" % (eng.stats, len(reach)))
 
+    writer_reader(ctx, g, body)
     # ---- U3: unwrap of a lookup in one of the parsed lists needs a dominating comparison on that list's length
     nu = 0
     for bi, t in body.calls("option::Option::<T>::unwrap"):
